@@ -15,7 +15,7 @@ TIERS = {
     'quick': {'workers': 8, 'cases': 1800, 'timeout': 600},
     'thorough': {'workers': 16, 'cases': 12000, 'timeout': 3000},
 }
-REQUIRED_BUCKETS = ['list:includes-known-name', 'mode:static', 'mode:dynamic', 'skip:False', 'skip:True', 'skip:list', 'skip:tuple', 'skip:set', 'stmt:flat-unknown', 'stmt:block-unknown',
+REQUIRED_BUCKETS = ['list:includes-known-name', 'mode:late-known-static', 'mode:late-known-dynamic', 'mode:static', 'mode:dynamic', 'skip:False', 'skip:True', 'skip:list', 'skip:tuple', 'skip:set', 'stmt:flat-unknown', 'stmt:block-unknown',
                     'stmt:scoped-unknown', 'stmt:module-qualified-unknown', 'stmt:known-with-unknown-ref', 'stmt:macro-with-unknown-ref', 'stmt:missing-import',
                     'ref:nested-depth2+', 'outcome:error-unlisted', 'outcome:skipped', 'outcome:all-known', 'placeholder:use-raises', 'placeholder:finalize-raises',
                     'dynamic:first-use', 'dynamic:repeat', 'dynamic:all-resolvable-equals-noskip', 'dynamic:name-not-imported', 'dynamic:attribute-missing',
@@ -419,10 +419,59 @@ def run_dynamic(ctx, case):
 
 def iter_cases(ctx, rng, n):
   for i in range(n):
+    if i % 11 == 10:
+      yield {'mode': 'late-known', 'dynamic': rng.random() < 0.5, 'skip': rng.choice([True, 'list', False]), 'again': rng.random() < 0.5}
+      continue
     yield gen_static(rng) if i % 3 else gen_dynamic(rng)
 
 
+def run_late_known(ctx, case):
+  """Known-ness is decided statement by statement: a name that is unknown where it first appears becomes known after a later import."""
+  import itertools
+  import os
+  import gin
+  from gin import config as gc
+  gin.clear_config()
+  ctx.bucket('mode:late-known-dynamic' if case['dynamic'] else 'mode:late-known-static')
+  n = next(_S.setdefault('late_ctr', itertools.count(1)))
+  if case['dynamic']:
+    pk = _S['tree'].new_package('c15l')
+    head = 'from __gin__ import dynamic_registration\n'
+    early, imp, late, target = 'LA.fa.x = 1', 'import %s.alpha as LA' % pk, 'LA.fa.y = 2', 'LA.fa'
+    full = None
+  else:
+    mod = 'vfc15late%d_%s' % (n, ctx.uid)
+    fn = 'late_fn%d_%s' % (n, ctx.uid)
+    with open(os.path.join(_S['tree'].root, mod + '.py'), 'w') as fh:
+      fh.write('import gin\n@gin.configurable\ndef %s(x=0, y=0):\n  return (x, y)\n' % fn)
+    import importlib
+    importlib.invalidate_caches()
+    head = ''
+    early, imp, late, target = '%s.x = 1' % fn, 'import ' + mod, '%s.y = 2' % fn, fn
+  text = head + early + '\n' + imp + '\n' + late + '\n' + (early.replace('= 1', '= 3') + '\n' if case['again'] else '')
+  skip = [target] if case['skip'] == 'list' else case['skip']
+  ctx.fp('late-known', case['dynamic'], str(case['skip']), case['again'])
+  try:
+    gin.parse_config(text, skip_unknown=skip)
+    exc = None
+  except Exception as e:  # pylint: disable=broad-except
+    exc = e
+  if not skip:
+    ctx.check(exc is not None, 'unknown-name-not-covered-by-setting-accepted', 'late-known: %r unknown at its first statement, skip_unknown=False, yet accepted\n%s' % (target, text))
+    return
+  if not ctx.check(exc is None, 'skippable-text-rejected', 'late-known: raised %s: %s\n%s' % (type(exc).__name__, str(exc)[:300], text)):
+    return
+  got = {prm: v for (sc, sel), d in gc._CONFIG.items() for prm, v in d.items()}
+  want = {'y': 2, 'x': 3} if case['again'] else {'y': 2}
+  ctx.count('reduced_compared')
+  ctx.check(got == want, 'binding-after-import-made-name-known-not-applied',
+            'late-known: the statement before the import must be skipped, those after it applied: store %r, expected %r\n%s' % (got, want, text))
+  gin.clear_config()
+
+
 def run_case(ctx, case):
+  if case['mode'] == 'late-known':
+    return run_late_known(ctx, case)
   if case['mode'] == 'static':
     run_static(ctx, case)
   else:
